@@ -123,8 +123,10 @@ def canned_txns(i):
 
 
 class Recorder:
-    def __init__(self, flags, rule_mode='first_match', rules_kind='rules', views=False, real_analyze=False):
+    def __init__(self, flags, rule_mode='first_match', rules_kind='rules', views=False, real_analyze=False, real_parse=None):
         self.real_analyze = real_analyze
+        self.real_parse = real_parse          # {'rows': {source index: rows}, 'vals': {source index: float-stub values in reading order}}: the REAL parser reads them
+        self.float_args = []
         self.flags = flags
         self.rule_mode = rule_mode
         self.rules_kind = rules_kind
@@ -164,6 +166,8 @@ class Recorder:
     def parse_generic_csv(self, filepath, format_spec, rules, source_name='CSV', decimal_separator='.', transforms=None, data_sources=None, **_k):
         from tally import merchant_utils
         idx = int(os.path.basename(filepath)[1:-4])
+        if self.real_parse is not None:
+            return self._real_parse(idx, filepath, format_spec, rules, source_name, decimal_separator, transforms, data_sources, _k)
         probe = merchant_utils.normalize_merchant('X AMAZON PRIME', rules, amount=5.0, transforms=transforms, data_sources=data_sources)
         probe2 = merchant_utils.normalize_merchant('ORDER 1', rules, amount=5.0, transforms=transforms, data_sources=data_sources)
         self.calls.append(('parse', idx, os.path.normpath(filepath), format_spec, source_name, decimal_separator,
@@ -171,6 +175,28 @@ class Recorder:
         if self.flags[idx].get('raises'):
             raise RuntimeError('cannot parse')
         return canned_txns(idx)
+
+    def _real_parse(self, idx, filepath, format_spec, rules, source_name, decimal_separator, transforms, data_sources, kw):
+        """The real parse_generic_csv (and, inside it, the real normalize_merchant with the rules cmd_run loaded) reads this
+        source's rows; only the C-level boundaries are stubbed, as in C05: csv reader, float() (records its argument, returns
+        the next symbolic value), strptime."""
+        from harness import C05
+        from tally import parsers
+        rows = self.real_parse['rows'][idx]
+        log = []
+        n = sum(1 for _ in rows)
+        vals = list(self.real_parse['vals'][idx])
+        real_norm = parsers.normalize_merchant
+        saved = C05._install(rows, log, [True] * n, [0] * n, vals)
+        parsers.normalize_merchant = real_norm
+        try:
+            out = parsers.parse_generic_csv(filepath, format_spec, rules, source_name=source_name, decimal_separator=decimal_separator,
+                                            transforms=transforms, data_sources=data_sources, **kw)
+        finally:
+            C05._restore(saved)
+        self.float_args.append((idx, [e[1] for e in log if e[0] == 'float'], [e[1] for e in log if e[0] == 'delimiter']))
+        self.calls.append(('parse', idx, os.path.normpath(filepath), format_spec, source_name, decimal_separator, None, data_sources))
+        return out
 
     def load_supplemental_sources(self, config, config_dir, *_a, **_k):
         self.calls.append(('load_supplemental', config_dir))
